@@ -204,6 +204,66 @@ func runBERT(localMax, peerMax uint32, body int) (line string) {
 	return fmt.Sprintf("first %d", first)
 }
 
+// runSrvSZX: a server configured through options.WithBlockwise(true, SZX(szx), …) is asked to Serve: an exponent the
+// transport cannot use (datagram transports: above 6; stream transport: above 7) must be refused by Serve with an error,
+// not accepted and left to fail (or to be reinterpreted) later.  Output: `err` / `serving`.
+func runSrvSZX(transport string, szx int) (line string) {
+	defer func() {
+		if r := recover(); r != nil {
+			line = fmt.Sprintf("panic %v", r)
+		}
+	}()
+	bw := options.WithBlockwise(true, blockwise.SZX(szx), 2*time.Second)
+	noErr := options.WithErrors(func(error) {})
+	served := make(chan error, 1)
+	stop := func() {}
+	switch transport {
+	case "udp":
+		l, err := coapNet.NewListenUDP("udp4", "127.0.0.1:0")
+		if err != nil {
+			return "conn-error"
+		}
+		defer l.Close()
+		s := udp.NewServer(bw, noErr)
+		go func() { served <- s.Serve(l) }()
+		stop = s.Stop
+	case "dtls":
+		l, err := coapNet.NewDTLSListener("udp4", "127.0.0.1:0", psk())
+		if err != nil {
+			return "conn-error"
+		}
+		defer l.Close()
+		s := coapdtls.NewServer(bw, noErr)
+		go func() { served <- s.Serve(l) }()
+		stop = s.Stop
+	case "tcp":
+		l, err := coapNet.NewTCPListener("tcp4", "127.0.0.1:0")
+		if err != nil {
+			return "conn-error"
+		}
+		defer l.Close()
+		s := tcp.NewServer(bw, noErr)
+		go func() { served <- s.Serve(l) }()
+		stop = s.Stop
+	default:
+		return "bad-op"
+	}
+	select {
+	case err := <-served:
+		if err != nil {
+			return "err"
+		}
+		return "returned-nil"
+	case <-time.After(150 * time.Millisecond):
+	}
+	stop()
+	select {
+	case <-served:
+	case <-time.After(2 * time.Second):
+	}
+	return "serving"
+}
+
 // runSZXPeer: a stream connection configured with exponent szx (any byte value) towards a peer whose CSM announces
 // Block-Wise-Transfer, with Max-Message-Size peerMax or - peerMax 0 - without one.  A POST of `body` bytes: an exponent
 // outside 0..7 must be refused (no request on the wire), whatever the peer announced.
@@ -214,8 +274,8 @@ func runSZXPeer(szx int, peerMax uint32, body int) (line string) {
 		}
 	}()
 	cc, peer, err := mem.NewTCPConn(mem.TCPOpts{Mutate: func(cfg *tcpclient.Config) {
-		cfg.BlockwiseEnable = true
-		cfg.BlockwiseSZX = blockwise.SZX(szx)
+		// through the option an application uses (the option's applier is part of what is checked)
+		options.WithBlockwise(true, blockwise.SZX(szx), 2*time.Second).TCPClientApply(cfg)
 		cfg.MaxMessageSize = 65536
 	}})
 	if err != nil {
@@ -298,6 +358,9 @@ func TestC19Glue(t *testing.T) {
 			szx, _ := strconv.Atoi(f[2])
 			body, _ := strconv.Atoi(f[3])
 			fmt.Fprintln(w, runCfgSZX(f[1], szx, body))
+		case len(f) == 3 && f[0] == "srvszx":
+			sz, _ := strconv.Atoi(f[2])
+			fmt.Fprintln(w, runSrvSZX(f[1], sz))
 		case len(f) == 4 && f[0] == "szxpeer":
 			sz, _ := strconv.Atoi(f[1])
 			pm, _ := strconv.ParseUint(f[2], 10, 32)
